@@ -135,7 +135,7 @@ func (p *Profile) sliceBound(t *rapid.T, d int) *Node {
 		return nil
 	}
 	for tries := 0; tries < 4; tries++ {
-		e := p.Expr(t, d-1)
+		e := Fold(p.Expr(t, d-1))
 		switch e.Kind {
 		case Float, List, Str: // rejected by the parser as literal bounds (documented restriction)
 			continue
